@@ -1,11 +1,849 @@
-// Package c04 - correspondence harness for C04 (stub: not built yet).
+// Package c04 drives the real verifier.Verify over generated signing chains and trusted
+// identity lists and reports whether the authenticity result carries an error.
+//
+// Subjects and identities are generated from an AST (RDN sequence over the attribute
+// alphabet C, ST, S, O, OU, CN, L, STREET, ...). Leaf certificates are minted with exactly the
+// AST as subject (DER built with encoding/asn1, so multi-valued RDNs, duplicate attributes
+// and any order are possible); identities are rendered by this package's own RFC 4514
+// renderer with random spacing and escaping. The model receives, for every string the
+// implementation hands to pkix.ParseDistinguishedName, what ldap.ParseDN answers for it
+// (computed here by calling go-ldap, a trusted library), the text itself, and the minted
+// attributes as ground truth.
 package c04
 
 import (
-	"errors"
+	"context"
+	"crypto/x509"
+	"crypto/x509/pkix"
+	"encoding/asn1"
+	"fmt"
+	"math/rand"
+	"strings"
+	"unicode/utf8"
 
+	ldap "github.com/go-ldap/ldap/v3"
+	"github.com/notaryproject/notation-go"
+	"github.com/notaryproject/notation-go/verifier"
+	"github.com/notaryproject/notation-go/verifier/trustpolicy"
+	"github.com/notaryproject/notation-go/verifier/truststore"
 	"github.com/notaryproject/notation-go/xverif/common"
+	"github.com/opencontainers/go-digest"
+	ocispec "github.com/opencontainers/image-spec/specs-go/v1"
 )
 
-// Run generates the cases of C04.
-func Run(c *common.Ctx) error { return errors.New("C04: harness not built yet") }
+// ---- JSON shapes of the Lean structures -----------------------------------------------
+
+type RDNs = [][][2]string
+
+type DN struct {
+	Text string `json:"text"`
+	Rdns *RDNs  `json:"rdns"`
+}
+
+type Identity struct {
+	Raw  string `json:"raw"`
+	Rdns *RDNs  `json:"rdns"`
+}
+
+type Input struct {
+	Identities []Identity  `json:"identities"`
+	Chain      []DN        `json:"chain"`
+	Minted     [][2]string `json:"minted"`
+}
+
+type Obs struct {
+	Pass bool `json:"pass"`
+}
+
+// ---- AST -------------------------------------------------------------------------------
+
+type attr struct{ T, V string }
+type rdn []attr
+type dnAST []rdn
+
+func (d dnAST) flat() []attr {
+	var out []attr
+	for _, r := range d {
+		out = append(out, r...)
+	}
+	return out
+}
+
+func (d dnAST) has(t string) bool {
+	for _, a := range d.flat() {
+		if a.T == t {
+			return true
+		}
+	}
+	return false
+}
+
+func singles(as []attr) dnAST {
+	var d dnAST
+	for _, a := range as {
+		d = append(d, rdn{a})
+	}
+	return d
+}
+
+// attribute types a certificate subject can carry, with the name x509 renders them with
+var oids = map[string]asn1.ObjectIdentifier{
+	"C": {2, 5, 4, 6}, "ST": {2, 5, 4, 8}, "L": {2, 5, 4, 7}, "STREET": {2, 5, 4, 9},
+	"POSTALCODE": {2, 5, 4, 17}, "O": {2, 5, 4, 10}, "OU": {2, 5, 4, 11}, "CN": {2, 5, 4, 3},
+	"SERIALNUMBER": {2, 5, 4, 5},
+	"2.5.4.12":     {2, 5, 4, 12}, // title: unknown to pkix.Name.String(), rendered as 2.5.4.12=#<hex>
+}
+
+var optionalTypes = []string{"OU", "CN", "L", "STREET"}
+
+func der(d dnAST) []byte {
+	var seq pkix.RDNSequence
+	for _, r := range d {
+		var set pkix.RelativeDistinguishedNameSET
+		for _, a := range r {
+			oid, ok := oids[a.T]
+			if !ok {
+				panic("no OID for " + a.T)
+			}
+			set = append(set, pkix.AttributeTypeAndValue{Type: oid, Value: a.V})
+		}
+		seq = append(seq, set)
+	}
+	b, err := asn1.Marshal(seq)
+	if err != nil {
+		panic(fmt.Sprintf("marshal subject: %v", err))
+	}
+	return b
+}
+
+// ---- generator ----------------------------------------------------------------------------
+
+type gen struct {
+	r *rand.Rand
+	c *common.Ctx
+}
+
+func (g *gen) pick(ss []string) string { return ss[g.r.Intn(len(ss))] }
+func (g *gen) chance(p float64) bool   { return g.r.Float64() < p }
+
+var plainValues = []string{"US", "WA", "Notary", "notation", "Seattle", "alpha", "beta", "x", "DE", "Acme Corp", "Dev Team", "1 Main Street", "a b c", "NOTARY", "Wa", "0"}
+var trickyValues = []string{"Acme, Inc.", "a+b", "k=v", "semi;colon", `quo"te`, "<tag>", " lead", "trail ", "#hash", "two  spaces", ",", "+", "=", "a,b+c=d", "CN=inner,O=inner", "tab\tbed", "café", " ", "a, b", "x=y=z", "*", "a:b"}
+var backslashValues = []string{`back\slash`, `end\`, `\`}
+var eqHashValues = []string{"x=#y", "=#", "a=#0c0161"}
+
+func (g *gen) value() string {
+	switch p := g.r.Float64(); {
+	case p < 0.55:
+		return g.pick(plainValues)
+	case p < 0.90:
+		return g.pick(trickyValues)
+	case p < 0.94:
+		return g.pick(backslashValues)
+	default:
+		return g.pick(plainValues) + g.pick([]string{",", "+", "=", " ", ";"}) + g.pick(plainValues)
+	}
+}
+
+// a valid subject: C, ST, O and a random choice of optional attributes, in random order
+func (g *gen) validAttrs() []attr {
+	as := []attr{{"C", g.pick([]string{"US", "DE", "US", "us"})}, {"ST", g.value()}, {"O", g.value()}}
+	for _, t := range optionalTypes {
+		if g.chance(0.5) {
+			as = append(as, attr{t, g.value()})
+		}
+	}
+	for i := range as {
+		if as[i].V == "" {
+			as[i].V = "x"
+		}
+	}
+	g.r.Shuffle(len(as), func(i, j int) { as[i], as[j] = as[j], as[i] })
+	return as
+}
+
+// leaf subject kinds
+func (g *gen) leafSubject() (dnAST, string) {
+	as := g.validAttrs()
+	switch p := g.r.Float64(); {
+	case p < 0.62:
+		return singles(as), "valid"
+	case p < 0.68:
+		// genuinely multi-valued RDN in the certificate (Go flattens it when rendering)
+		d := dnAST{rdn{as[0], as[1]}}
+		d = append(d, singles(as[2:])...)
+		return d, "valid-multivalued-set"
+	case p < 0.72:
+		as = append(as, attr{g.pick([]string{"SERIALNUMBER", "POSTALCODE"}), g.pick([]string{"12345", "98101", "sn 7"})})
+		g.r.Shuffle(len(as), func(i, j int) { as[i], as[j] = as[j], as[i] })
+		return singles(as), "valid-extra-known-type"
+	case p < 0.79:
+		// a mandatory attribute is missing
+		drop := g.pick([]string{"C", "ST", "O"})
+		var out []attr
+		for _, a := range as {
+			if a.T != drop {
+				out = append(out, a)
+			}
+		}
+		return singles(out), "missing-mandatory"
+	case p < 0.82:
+		t := g.pick([]string{"C", "ST", "O"})
+		for i := range as {
+			if as[i].T == t {
+				as[i].V = ""
+			}
+		}
+		return singles(as), "empty-mandatory"
+	case p < 0.86:
+		// two common names: x509 keeps the last one
+		as = append(as, attr{"CN", g.value() + "2"})
+		if g.chance(0.5) {
+			g.r.Shuffle(len(as), func(i, j int) { as[i], as[j] = as[j], as[i] })
+		}
+		return singles(as), "duplicate-CN"
+	case p < 0.91:
+		// a repeated multi-valued type: rendered as one multi-valued RDN
+		t := g.pick([]string{"OU", "O", "C", "ST", "L", "STREET"})
+		as = append(as, attr{t, g.value() + "2"})
+		g.r.Shuffle(len(as), func(i, j int) { as[i], as[j] = as[j], as[i] })
+		return singles(as), "duplicate-" + t
+	case p < 0.95:
+		as = append(as, attr{"2.5.4.12", "Chief"})
+		g.r.Shuffle(len(as), func(i, j int) { as[i], as[j] = as[j], as[i] })
+		return singles(as), "unknown-oid"
+	case p < 0.98:
+		i := g.r.Intn(len(as))
+		as[i].V = g.pick(eqHashValues)
+		return singles(as), "eqhash-value"
+	default:
+		// no subject at all
+		return dnAST{}, "empty-subject"
+	}
+}
+
+func (g *gen) caSubject(leaf dnAST, role string, n int) dnAST {
+	// CA subjects often share C/ST/O with the leaf so that only the CN tells them apart
+	var as []attr
+	if g.chance(0.6) && leaf.has("C") && leaf.has("ST") && leaf.has("O") {
+		for _, a := range leaf.flat() {
+			if (a.T == "C" || a.T == "ST" || a.T == "O") && a.V != "" && !hasType(as, a.T) {
+				as = append(as, a)
+			}
+		}
+	} else {
+		as = []attr{{"C", "US"}, {"ST", g.pick(plainValues)}, {"O", g.pick(plainValues)}}
+	}
+	as = append(as, attr{"CN", fmt.Sprintf("%s CA %d", role, n)})
+	if g.chance(0.3) {
+		as = append(as, attr{"OU", g.value()})
+	}
+	g.r.Shuffle(len(as), func(i, j int) { as[i], as[j] = as[j], as[i] })
+	return singles(as)
+}
+
+func hasType(as []attr, t string) bool {
+	for _, a := range as {
+		if a.T == t {
+			return true
+		}
+	}
+	return false
+}
+
+// ---- RFC 4514 renderer (the harness's own) ------------------------------------------------------
+
+func (g *gen) sp() string {
+	switch p := g.r.Float64(); {
+	case p < 0.6:
+		return ""
+	case p < 0.9:
+		return " "
+	default:
+		return "  "
+	}
+}
+
+func isASCIIHexable(c rune) bool { return c < 0x80 }
+
+func (g *gen) escValue(v string) string {
+	rs := []rune(v)
+	var b strings.Builder
+	for i, c := range rs {
+		must := false
+		switch c {
+		case ',', '+', '"', '\\', '<', '>', ';':
+			must = true
+		case ' ':
+			must = i == 0 || i == len(rs)-1
+		case '#':
+			must = i == 0
+		}
+		switch {
+		case must && c != ' ' && c != '#' && g.chance(0.2):
+			fmt.Fprintf(&b, `\%02x`, c) // hex form of an ASCII special
+		case must:
+			b.WriteRune('\\')
+			b.WriteRune(c)
+		case c == '=' && g.chance(0.5):
+			b.WriteString(`\=`)
+		case c == ' ' && g.chance(0.1):
+			b.WriteString(`\ `)
+		case isASCIIHexable(c) && c > ' ' && c < 0x7f && g.chance(0.02):
+			fmt.Fprintf(&b, `\%02x`, c)
+		default:
+			b.WriteRune(c)
+		}
+	}
+	return b.String()
+}
+
+// render writes the DN; spacing is random around every separator, except after a value that
+// ends in a backslash (go-ldap's stripLeadingAndTrailingSpaces turns `a\\ ,` into "a\ ":
+// a quirk of the trusted library, kept out of the generator and noted in the README).
+func (g *gen) render(d dnAST) string {
+	var b strings.Builder
+	for i, r := range d {
+		if i > 0 {
+			b.WriteString(g.pick([]string{",", ",", ",", ";"}))
+		}
+		for j, a := range r {
+			if j > 0 {
+				b.WriteString("+")
+			}
+			b.WriteString(g.sp())
+			b.WriteString(a.T)
+			b.WriteString(g.sp())
+			b.WriteString("=")
+			b.WriteString(g.sp())
+			b.WriteString(g.escValue(a.V))
+			if !strings.HasSuffix(a.V, `\`) {
+				b.WriteString(g.sp())
+			}
+		}
+	}
+	return b.String()
+}
+
+// ---- identities -------------------------------------------------------------------------------
+
+const x509p = "x509.subject:"
+
+func (g *gen) shuffled(as []attr) []attr {
+	out := append([]attr(nil), as...)
+	g.r.Shuffle(len(out), func(i, j int) { out[i], out[j] = out[j], out[i] })
+	return out
+}
+
+func (g *gen) nearMiss(v string) string {
+	rs := []rune(v)
+	if len(rs) == 0 {
+		return "x"
+	}
+	i := g.r.Intn(len(rs))
+	switch g.r.Intn(6) {
+	case 0: // delete
+		return string(rs[:i]) + string(rs[i+1:])
+	case 1: // insert
+		return string(rs[:i]) + "z" + string(rs[i:])
+	case 2: // substitute
+		c := rs[i] + 1
+		if rs[i] == 'z' || rs[i] > 0x7d {
+			c = 'a'
+		}
+		return string(rs[:i]) + string(c) + string(rs[i+1:])
+	case 3: // case flip
+		s := string(rs[i])
+		if strings.ToUpper(s) != s {
+			s = strings.ToUpper(s)
+		} else {
+			s = strings.ToLower(s)
+		}
+		if s == string(rs[i]) {
+			s += "q"
+		}
+		return string(rs[:i]) + s + string(rs[i+1:])
+	case 4: // proper prefix
+		return string(rs[:len(rs)-1])
+	default: // extension
+		return v + g.pick([]string{"x", " ", "."})
+	}
+}
+
+// the subject whose attributes identities are derived from: the leaf as x509 will show it when
+// it is single-valued and duplicate free, otherwise a cleaned-up version of it
+func base(leaf dnAST) []attr {
+	var out []attr
+	for _, a := range leaf.flat() {
+		if _, known := oids[a.T]; !known || a.T == "2.5.4.12" {
+			continue
+		}
+		if hasType(out, a.T) {
+			// a repeated type: the later value wins (as x509 does for the common name)
+			for i := range out {
+				if out[i].T == a.T {
+					out[i].V = a.V
+				}
+			}
+			continue
+		}
+		out = append(out, a)
+	}
+	for _, t := range []string{"C", "ST", "O"} {
+		if !hasType(out, t) {
+			out = append(out, attr{t, "X"})
+		}
+	}
+	return out
+}
+
+func withAlias(as []attr) []attr {
+	out := append([]attr(nil), as...)
+	for i := range out {
+		if out[i].T == "ST" {
+			out[i].T = "S"
+		}
+	}
+	return out
+}
+
+// identity returns one identity string and the name of its kind
+func (g *gen) identity(leaf dnAST, cas []dnAST) (string, string, dnAST) {
+	b := base(leaf)
+	x := func(d dnAST) string { return x509p + g.render(d) }
+	missing := func() string {
+		var cand []string
+		for _, t := range []string{"OU", "CN", "L", "STREET", "DC", "UID", "E"} {
+			if !hasType(b, t) {
+				cand = append(cand, t)
+			}
+		}
+		return g.pick(cand)
+	}
+	switch p := g.r.Float64(); {
+	case p < 0.14:
+		d := singles(g.shuffled(b))
+		return x(d), "exact-permuted", d
+	case p < 0.16:
+		// the province twice, once as ST and once under its alias S, in either order; the later
+		// one (the one an overwriting map would keep) carries the leaf's value
+		var st attr
+		var as []attr
+		for _, a := range g.shuffled(b) {
+			if a.T == "ST" {
+				st = a
+			} else {
+				as = append(as, a)
+			}
+		}
+		first, second := attr{"ST", st.V}, attr{"S", st.V}
+		if g.chance(0.5) {
+			first.T, second.T = "S", "ST"
+		}
+		if g.chance(0.6) {
+			first.V = g.nearMiss(first.V)
+		}
+		i := g.r.Intn(len(as) + 1)
+		as = append(as[:i:i], append([]attr{first}, as[i:]...)...)
+		j := i + 1 + g.r.Intn(len(as)-i)
+		as = append(as[:j:j], append([]attr{second}, as[j:]...)...)
+		d := singles(as)
+		return x(d), "alias-duplicate", d
+	case p < 0.22:
+		d := singles(g.shuffled(withAlias(b)))
+		return x(d), "exact-with-S-alias", d
+	case p < 0.32:
+		// strict subset that keeps the mandatory attributes
+		var as []attr
+		for _, a := range b {
+			if a.T == "C" || a.T == "ST" || a.T == "O" || g.chance(0.4) {
+				as = append(as, a)
+			}
+		}
+		if g.chance(0.3) {
+			as = withAlias(as)
+		}
+		d := singles(g.shuffled(as))
+		return x(d), "subset", d
+	case p < 0.37:
+		drop := g.pick([]string{"C", "ST", "O"})
+		var as []attr
+		for _, a := range b {
+			if a.T != drop {
+				as = append(as, a)
+			}
+		}
+		d := singles(g.shuffled(as))
+		return x(d), "subset-without-mandatory", d
+	case p < 0.44:
+		as := append(g.shuffled(b), attr{missing(), g.value()})
+		d := singles(g.shuffled(as))
+		return x(d), "superset", d
+	case p < 0.48:
+		as := append(g.shuffled(b), attr{missing(), ""})
+		d := singles(g.shuffled(as))
+		return x(d), "superset-empty-value", d
+	case p < 0.60:
+		as := g.shuffled(b)
+		i := g.r.Intn(len(as))
+		as[i].V = g.nearMiss(as[i].V)
+		if g.chance(0.2) {
+			as = withAlias(as)
+		}
+		d := singles(as)
+		return x(d), "near-miss-value", d
+	case p < 0.63:
+		as := g.shuffled(b)
+		i := g.r.Intn(len(as))
+		as[i].T = strings.ToLower(as[i].T)
+		d := singles(as)
+		return x(d), "lower-case-type", d
+	case p < 0.70:
+		ca := cas[g.r.Intn(len(cas))]
+		d := singles(g.shuffled(ca.flat()))
+		return x(d), "ca-subject", d
+	case p < 0.74:
+		// a duplicate attribute with another value, before or after the original
+		as := g.shuffled(b)
+		i := g.r.Intn(len(as))
+		dup := attr{as[i].T, g.nearMiss(as[i].V)}
+		if g.chance(0.3) {
+			dup.V = as[i].V
+		}
+		if dup.T == "ST" && g.chance(0.5) {
+			dup.T = "S"
+		}
+		if g.chance(0.5) {
+			as = append(as, dup)
+		} else {
+			as = append([]attr{dup}, as...)
+		}
+		d := singles(as)
+		return x(d), "duplicate-attribute", d
+	case p < 0.78:
+		// two (or three) attributes in one multi-valued RDN
+		as := g.shuffled(b)
+		n := 2 + g.r.Intn(2)
+		if n > len(as) {
+			n = len(as)
+		}
+		d := dnAST{rdn(as[:n])}
+		d = append(d, singles(as[n:])...)
+		g.r.Shuffle(len(d), func(i, j int) { d[i], d[j] = d[j], d[i] })
+		return x(d), "multi-valued-rdn", d
+	case p < 0.80:
+		d := singles(g.shuffled(b))
+		s := g.render(d)
+		return x509p + strings.Replace(s, "=", "=#", 1), "eqhash", nil
+	case p < 0.82:
+		as := g.shuffled(b)
+		i := g.r.Intn(len(as))
+		as[i].V = g.pick(eqHashValues)
+		return x(singles(as)), "eqhash-value", nil
+	case p < 0.86:
+		good := g.render(singles(g.shuffled(b)))
+		return x509p + g.pick([]string{"CN", "=x", `CN=abc\`, good + ",", good + ",,C=US", good + "+", ",", "   ", "C", `O=a\zz,` + good, good + `,CN="q,r"`}), "unparseable-dn", nil
+	case p < 0.91:
+		good := g.render(singles(g.shuffled(b)))
+		return g.pick([]string{"x509.fingerprint:ab12cd", "X509.subject:" + good, " x509.subject:" + good, "x509.subject :" + good,
+			"x509.subjec:" + good, "x509.subjectt:" + good, ":" + good, "oidc.subject:someone", "x509:" + good, "subject:" + good}), "ignored-prefix", nil
+	case p < 0.94:
+		good := g.render(singles(g.shuffled(b)))
+		return g.pick([]string{"x509.subject", good, "", "x509.subject;" + good, "x509.subject=" + good, "x509.fingerprint"}), "no-separator", nil
+	case p < 0.96:
+		return x509p, "empty-value", nil
+	case p < 0.985:
+		good := g.render(singles(g.shuffled(b)))
+		return g.pick([]string{"**", "* ", " *", x509p + "*", "*:*", "*:" + good, x509p + "C=*,ST=*,O=*", "x509.*:" + good}), "wildcard-lookalike", nil
+	default:
+		return "*", "wildcard", nil
+	}
+}
+
+func (g *gen) identityList(leaf dnAST, cas []dnAST) ([]string, []dnAST) {
+	n := 1
+	switch p := g.r.Float64(); {
+	case p < 0.02:
+		n = 0
+	case p < 0.55:
+		n = 1
+	case p < 0.80:
+		n = 2
+	case p < 0.93:
+		n = 3
+	default:
+		n = 4 + g.r.Intn(2)
+	}
+	ids := []string{}
+	asts := []dnAST{}
+	for k := 0; k < n; k++ {
+		s, kind, ast := g.identity(leaf, cas)
+		g.c.Count("identity=" + kind)
+		ids = append(ids, s)
+		asts = append(asts, ast)
+	}
+	return ids, asts
+}
+
+// ---- what ldap.ParseDN answers ------------------------------------------------------------------
+
+func parse(s string) *RDNs {
+	dn, err := ldap.ParseDN(s)
+	if err != nil || dn == nil {
+		return nil
+	}
+	out := RDNs{}
+	for _, r := range dn.RDNs {
+		as := [][2]string{}
+		for _, a := range r.Attributes {
+			if !utf8.ValidString(a.Type) || !utf8.ValidString(a.Value) {
+				panic(fmt.Sprintf("generator produced a DN whose parse is not valid UTF-8: %q", s))
+			}
+			as = append(as, [2]string{a.Type, a.Value})
+		}
+		out = append(out, as)
+	}
+	return &out
+}
+
+func sameAST(p *RDNs, d dnAST) bool {
+	if p == nil || len(*p) != len(d) {
+		return false
+	}
+	for i, r := range d {
+		if len((*p)[i]) != len(r) {
+			return false
+		}
+		for j, a := range r {
+			if (*p)[i][j] != [2]string{a.T, a.V} {
+				return false
+			}
+		}
+	}
+	return true
+}
+
+// ---- the real code ---------------------------------------------------------------------------
+
+type memStore struct{ certs []*x509.Certificate }
+
+func (m *memStore) GetCertificates(ctx context.Context, t truststore.Type, name string) ([]*x509.Certificate, error) {
+	return m.certs, nil
+}
+
+var target = ocispec.Descriptor{MediaType: ocispec.MediaTypeImageManifest, Digest: digest.FromString("c04 artifact"), Size: 12}
+
+const artifactRef = "reg.example/c04@sha256:0000000000000000000000000000000000000000000000000000000000000000"
+
+func newDoc(level string, ids []string) *trustpolicy.OCIDocument {
+	return &trustpolicy.OCIDocument{Version: "1.0", TrustPolicies: []trustpolicy.OCITrustPolicy{{
+		Name: "c04",
+		SignatureVerification: trustpolicy.SignatureVerification{VerificationLevel: level,
+			Override:        map[trustpolicy.ValidationType]trustpolicy.ValidationAction{trustpolicy.TypeRevocation: trustpolicy.ActionSkip},
+			VerifyTimestamp: trustpolicy.OptionAfterCertExpiry},
+		TrustStores:       []string{"ca:c04"},
+		TrustedIdentities: ids,
+		RegistryScopes:    []string{"*"},
+	}}}
+}
+
+// authenticity returns whether the authenticity result of the outcome carries no error
+func authenticity(out *notation.VerificationOutcome) (bool, error) {
+	if out == nil {
+		return false, fmt.Errorf("no outcome")
+	}
+	for _, r := range out.VerificationResults {
+		if r.Type == trustpolicy.TypeAuthenticity {
+			return r.Error == nil, r.Error
+		}
+	}
+	return false, fmt.Errorf("no authenticity result in the outcome (outcome error: %v)", out.Error)
+}
+
+type world struct {
+	store *memStore
+	doc   map[string]*trustpolicy.OCIDocument // per level: the document the long-lived verifier holds
+	ver   map[string]notation.Verifier
+}
+
+func newWorld() (*world, error) {
+	w := &world{store: &memStore{}, doc: map[string]*trustpolicy.OCIDocument{}, ver: map[string]notation.Verifier{}}
+	for _, lv := range []string{"strict", "permissive", "audit"} {
+		d := newDoc(lv, []string{"*"})
+		v, err := verifier.NewVerifierWithOptions(w.store, verifier.VerifierOptions{OCITrustPolicy: d})
+		if err != nil {
+			return nil, err
+		}
+		w.doc[lv], w.ver[lv] = d, v
+	}
+	return w, nil
+}
+
+// verifyMutated: the long-lived verifier was constructed with a valid document; the
+// statement's identity list is replaced in place afterwards, so that every list - also those
+// the document validation refuses - reaches verifyX509TrustedIdentities.
+func (w *world) verifyMutated(level string, ids []string, sig []byte, media string) (bool, error) {
+	w.doc[level].TrustPolicies[0].TrustedIdentities = ids
+	out, _ := w.ver[level].Verify(context.Background(), target, sig, notation.VerifierVerifyOptions{ArtifactReference: artifactRef, SignatureMediaType: media})
+	return authenticity(out)
+}
+
+// verifyFresh: the ordinary route - a verifier constructed from the document itself (only
+// possible when the document validates).
+func (w *world) verifyFresh(level string, ids []string, sig []byte, media string) (pass, ran bool, err error) {
+	d := newDoc(level, ids)
+	v, verr := verifier.NewVerifierWithOptions(w.store, verifier.VerifierOptions{OCITrustPolicy: d})
+	if verr != nil {
+		return false, false, nil
+	}
+	out, _ := v.Verify(context.Background(), target, sig, notation.VerifierVerifyOptions{ArtifactReference: artifactRef, SignatureMediaType: media})
+	p, e := authenticity(out)
+	return p, true, e
+}
+
+func mintedList(d dnAST) [][2]string {
+	out := [][2]string{}
+	for _, a := range d.flat() {
+		out = append(out, [2]string{a.T, a.V})
+	}
+	return out
+}
+
+// Run generates chains x identity lists.
+func Run(c *common.Ctx) error {
+	chains, listsPer := 650, 7
+	if c.Thorough() {
+		chains, listsPer = 10000, 9
+	}
+	c.Note("%d chains (root [-> intermediate] -> leaf minted with the AST as RawSubject) x (%d random identity lists + the lone wildcard); every list through a long-lived verifier whose document is mutated in place, and again through a freshly validated verifier when the document validates; levels strict/permissive/audit, JWS and COSE", chains, listsPer)
+	g := &gen{r: c.Rand, c: c}
+	w, err := newWorld()
+	if err != nil {
+		return fmt.Errorf("world: %v", err)
+	}
+	// the in-place replacement of the identity list must be seen by the long-lived verifier
+	// (otherwise every case would silently run under the wildcard): checked on every chain
+	// below by requiring at least one failing list overall.
+	sawFail, sawPass := false, false
+	mismatch := 0
+
+	for n := 0; n < chains; n++ {
+		leaf, kind := g.leafSubject()
+		c.Count("leaf=" + kind)
+		withInter := g.chance(0.6)
+		rootAST := g.caSubject(leaf, "root", n)
+		root := common.MakeCert(common.CertOpts{RawSubject: der(rootAST), CA: true, PathLen: 1})
+		issuer := root
+		casAST := []dnAST{rootAST}
+		certs := []*common.Cert{root}
+		if withInter {
+			interAST := g.caSubject(leaf, "intermediate", n)
+			inter := common.MakeCert(common.CertOpts{RawSubject: der(interAST), CA: true, PathLen: 0, Parent: root})
+			issuer = inter
+			casAST = append([]dnAST{interAST}, casAST...)
+			certs = append([]*common.Cert{inter}, certs...)
+		}
+		leafCert := common.MakeCert(common.CertOpts{RawSubject: der(leaf), Parent: issuer, EKU: []x509.ExtKeyUsage{x509.ExtKeyUsageCodeSigning}})
+		certs = append([]*common.Cert{leafCert}, certs...)
+		chain := &common.Chain{Certs: certs}
+		media := common.MediaJWS
+		if g.chance(0.3) {
+			media = common.MediaCOSE
+		}
+		sig, err := common.SignEnvelope(common.EnvOpts{Format: media, Chain: chain, Target: &target})
+		if err != nil {
+			return fmt.Errorf("sign (leaf kind %s, subject %q): %v", kind, leafCert.Cert.Subject.String(), err)
+		}
+		w.store.certs = []*x509.Certificate{root.Cert}
+
+		var chainDN []DN
+		for _, x := range chain.X509() {
+			t := x.Subject.String()
+			if !utf8.ValidString(t) {
+				return fmt.Errorf("subject text is not valid UTF-8: %q", t)
+			}
+			chainDN = append(chainDN, DN{Text: t, Rdns: parse(t)})
+		}
+		minted := mintedList(leaf)
+
+		emit := func(level string, ids []string) error {
+			in := Input{Identities: []Identity{}, Chain: chainDN, Minted: minted}
+			for _, s := range ids {
+				_, after, _ := strings.Cut(s, ":")
+				in.Identities = append(in.Identities, Identity{Raw: s, Rdns: parse(after)})
+			}
+			pass, aerr := w.verifyMutated(level, ids, sig, media)
+			if aerr != nil && strings.Contains(aerr.Error(), "no authenticity result") {
+				return fmt.Errorf("generator: %v", aerr)
+			}
+			c.Emit(in, Obs{Pass: pass})
+			c.Count("route=mutated-document")
+			c.Count("level=" + level)
+			if pass {
+				c.Count("outcome=pass")
+				sawPass = true
+			} else {
+				c.Count("outcome=fail")
+				sawFail = true
+			}
+			if p2, ran, _ := w.verifyFresh(level, ids, sig, media); ran {
+				c.Emit(in, Obs{Pass: p2})
+				c.Count("route=validated-document")
+			}
+			return nil
+		}
+
+		// control: the lone wildcard accepts this chain (trust-store authenticity itself passes,
+		// so that the only possible authenticity error of the other cases is the identity check)
+		level := g.pick([]string{"strict", "strict", "permissive", "audit"})
+		if pass, aerr := w.verifyMutated(level, []string{"*"}, sig, media); !pass {
+			return fmt.Errorf("generator: trust-store authenticity does not pass for chain %d (leaf kind %s): %v", n, kind, aerr)
+		}
+		if err := emit(level, []string{"*"}); err != nil {
+			return err
+		}
+		for k := 0; k < listsPer; k++ {
+			ids, asts := g.identityList(leaf, casAST)
+			// the harness's renderer against go-ldap: an identity rendered from an AST parses back to it
+			for j, ast := range asts {
+				if ast == nil {
+					continue
+				}
+				_, after, _ := strings.Cut(ids[j], ":")
+				if !sameAST(parse(after), ast) {
+					mismatch++
+					if mismatch <= 3 {
+						c.Note("render/parse mismatch: %q parsed as %v, AST %v", after, parse(after), ast)
+					}
+				}
+			}
+			// structured combinations on top of the random list
+			switch p := g.r.Float64(); {
+			case p < 0.10 && len(ids) > 0:
+				// a matching identity next to whatever was drawn
+				good := x509p + g.render(singles(g.shuffled(base(leaf))))
+				if g.chance(0.5) {
+					ids = append(ids, good)
+				} else {
+					ids = append([]string{good}, ids...)
+				}
+				c.Count("list=with-extra-exact")
+			case p < 0.14:
+				ids = append(ids, "*")
+				g.r.Shuffle(len(ids), func(i, j int) { ids[i], ids[j] = ids[j], ids[i] })
+				c.Count("list=with-wildcard")
+			}
+			c.Count(fmt.Sprintf("list-length=%d", len(ids)))
+			level := g.pick([]string{"strict", "strict", "permissive", "audit"})
+			if err := emit(level, ids); err != nil {
+				return err
+			}
+		}
+	}
+	if mismatch > 0 {
+		return fmt.Errorf("%d identities rendered from an AST did not parse back to it with go-ldap (see notes)", mismatch)
+	}
+	if !sawFail || !sawPass {
+		return fmt.Errorf("generator: degenerate run (sawPass=%v sawFail=%v): the in-place identity replacement is not effective", sawPass, sawFail)
+	}
+	return nil
+}
